@@ -5,7 +5,7 @@ import json
 import os
 import sys
 
-root = os.path.realpath(os.environ.get("VERIF_REPO", "/repo")) + "/skepticoin/"
+root = os.path.realpath((os.environ.get("VERIF_REPO") or "/repo")) + "/skepticoin/"
 seen = {}
 for f in glob.glob(os.path.join(sys.argv[1], "*.json")):
     for fn, ln in json.load(open(f)):
